@@ -349,6 +349,22 @@ def run(ctx: Ctx, tier: str) -> Result:
         else:
             res.fail(Finding("C18.CHAIN", det.qname, c, det.loc(c), "the map of environment attributes is not created afresh in each detection (`%s` comes from state kept "
                              "between calls): an override written into it (service name) or an earlier environment leaks into later resources" % (norm(a0)[:40] if a0 is not None else "")))
+    # an environment attribute is taken over as it was written: percent-decoded (the documented form), nothing else done to it
+    # (`unquote_plus` would turn every literal `+` - a version `1.4.2+build.7`, a UTC offset - into a blank)
+    env_stores = [n for n in t.nodes_in(det, ast.Assign) if isinstance(n.targets[0], ast.Subscript) and isinstance(n.targets[0].value, ast.Name)
+                  and paths.enclosing_loops(p, n, det)]
+    for n in env_stores:
+        vx = ctx.expand.expand(n.value, det)
+        import re as _re2
+        okv = bool(vx) and all(x.startswith("urllib.parse.unquote(") and _re2.search(r"\)(?:\.strip\(\))?$", x) and "unquote_plus" not in x and
+                               all(m_ in ("urllib.parse.unquote", "os.environ.get", "os.getenv", "<elem>") or m_.rsplit(".", 1)[-1] in ("strip", "split", "get")
+                                   for m_ in _re2.findall(r"([A-Za-z_<][\w.<>]*)\(", x)) for x in vx)
+        if okv:
+            res.ok("C18.CHAIN", {"environment value taken over percent-decoded": vx[0][:60]})
+        else:
+            res.fail(Finding("C18.CHAIN", det.qname, n.value, det.loc(n.value), "an environment-provided attribute value is stored as `%s`, not as the percent-decoded text that was "
+                             "written: the resource carries another value than the one configured" % (vx[0][:70] if vx else norm(n.value))))
+    res.floor("stores of environment attributes in the detector", len(env_stores), 1)
     rm = p.modules["deep.api.resource"]
     dflt = rm.consts.get("_DEFAULT_RESOURCE")
     keys = []
